@@ -51,9 +51,9 @@ impl<F: Inner> SymF<F> {
         let v: BigUint = self.v.into();
         let m: BigUint = F::MODULUS.into();
         let lim = BigUint::from(1u8) << 128;
-        let s = if v < lim { v.to_string() } else if (&m - &v) < lim { format!("-{}", &m - &v) } else {
-            return A.with(|a| { let mut a = a.borrow_mut(); let n = format!("opaque_{}", v); if !a.opaque.contains(&n) { a.opaque.push(n.clone()); } let id = a.mk(Term::Var(n)); a.var_shadow.insert(id, self.v.into_bigint().0.to_vec()); id });
-        };
+        // a literal leaf is lifted to the integer c in [0,q), or to c - q when that is small; all
+        // arithmetic on non-small literals stays symbolic (see `small`), so nothing wraps around q
+        let s = if (&m - &v) < lim { format!("-{}", &m - &v) } else { v.to_string() };
         A.with(|a| a.borrow_mut().mk(Term::Lit(s)))
     }
     fn bin(self, o: Self, v: F, f: impl Fn(&mut crate::arena::Arena, u32, u32) -> u32) -> Self {
